@@ -50,7 +50,7 @@ fn hook_map(mut m: Map<String, Value>) -> Option<Map<String, Value>> {
     if parts.len() != 4 || parts[0] != "p" {
         return None;
     }
-    if parts[3] == "short" {
+    if parts[3] == "short" || parts[3] == "storm" {
         return None;
     }
     let new = m["new"].as_str().unwrap_or("").to_string();
@@ -80,6 +80,11 @@ fn run_scenario(sc: &Value) {
     // the busy coroutine waits behind the unpreemptible one and is stolen by thread 2, where it must be
     // preempted just the same.
     let steal = sc["steal"].as_bool().unwrap_or(false);
+    // "storm": a coroutine goes in and out of a syscall state `storm` times (every return to Running runs the
+    // monitor's listener, which takes the notify-set lock, on the coroutine's own stack) while a plain thread
+    // sends SIGURG to the scheduling thread once per millisecond (the monitor's rate): a handler that suspends the coroutine while it
+    // holds that lock leaves the thread waiting for itself
+    let storm = sc["storm"].as_u64().unwrap_or(0);
     let busy_ms = sc["busy_ms"].as_f64().unwrap_or(45.0);
     GO.store(!steal, std::sync::atomic::Ordering::SeqCst);
     rec(json!({"ev": "mreset", "scenario": sc["id"], "threads": threads, "busy": busy_kind}));
@@ -144,6 +149,29 @@ fn run_scenario(sc: &Value) {
                 Some(2)
             }));
             sch.submit_raw_co(quick).expect("submit");
+            if storm > 0 {
+                let me = unsafe { libc::pthread_self() };
+                let stop = std::sync::Arc::new(std::sync::atomic::AtomicBool::new(false));
+                let stop2 = stop.clone();
+                let _ = std::thread::spawn(move || {
+                    while !stop2.load(std::sync::atomic::Ordering::Relaxed) {
+                        unsafe { libc::pthread_kill(me, libc::SIGURG) };
+                        // the monitor's own rate: one signal per millisecond and overdue thread
+                        std::thread::sleep(Duration::from_micros(1000));
+                    }
+                });
+                let stormer = mk(4, "storm", Box::new(move || {
+                    let co = SchedulableCoroutine::current().expect("current");
+                    for _ in 0..storm {
+                        co.syscall((), SyscallName::write, SyscallState::Executing).expect("enter syscall");
+                        co.running().expect("leave syscall");
+                    }
+                    stop.store(true, std::sync::atomic::Ordering::Relaxed);
+                    rec(json!({"ev": "storm_done", "own": th}));
+                    Some(4)
+                }));
+                sch.submit_raw_co(stormer).expect("submit");
+            }
             if steal && th == 1 {
                 let blocker = mk(3, "sysblock", Box::new(move || {
                     let co = SchedulableCoroutine::current().expect("current");
@@ -168,7 +196,7 @@ fn run_scenario(sc: &Value) {
             // schedulers share the process-wide ready queue and steal from each other: a thread keeps
             // scheduling until every coroutine of every thread has finished
             let t0 = Instant::now();
-            let total = if steal { 4 } else { (2 + shorts) * threads };
+            let total = if steal { 4 } else { (2 + shorts + u64::from(storm > 0)) * threads };
             while steal && th != 1 && !GO.load(std::sync::atomic::Ordering::SeqCst) {
                 std::thread::yield_now();
             }
